@@ -462,4 +462,278 @@ theorem scanF_at (f : Fmt) (t d : List Char) :
   rw [scanF_eq]
   exact sign_stage (start_specP Stale0F (fun c hc => Or.inr hc) (Or.inl rfl) f t d)
 
+/-! ### reading back what was written: fixed and detected base, with something after the number -/
+
+section
+open List
+
+theorem takeWhile_append_stop (p : Char → Bool) (ds tail : List Char) (hall : ∀ c ∈ ds, p c = true)
+    (ht : ∀ c, tail.head? = some c → p c = false) : (ds ++ tail).takeWhile p = ds := by
+  induction ds with
+  | nil =>
+    cases tail with
+    | nil => rfl
+    | cons a t => simp [ht a rfl]
+  | cons a t ih =>
+    simp [hall a mem_cons_self, ih (fun c hc => hall c (mem_cons_of_mem _ hc))]
+
+/-- a digit string followed by something that is no digit -/
+theorem digitsPart_tail (b : Nat) (neg : Bool) (pre : Nat) (zero : Bool) (ds tail : List Char) (hne : ds ≠ [])
+    (hall : ∀ c ∈ ds, digitTest b c = true) (ht : ∀ c, tail.head? = some c → digitTest b c = false) :
+    digitsPart b neg pre zero (ds ++ tail) =
+      ⟨pre + ds.length, .value (if neg then -(digitsVal b ds : Int) else digitsVal b ds), false, false⟩ := by
+  unfold digitsPart
+  simp only [takeWhile_append_stop _ _ _ hall ht, hne, ne_eq, not_false_eq_true, if_true]
+
+/-- the lone "0" of a detected octal number, followed by something that is no octal digit -/
+theorem digitsPart_zero (neg : Bool) (pre : Nat) (tail : List Char) (ht : ∀ c, tail.head? = some c → digitTest 8 c = false) :
+    digitsPart 8 neg pre true tail = ⟨pre, .value 0, false, false⟩ := by
+  unfold digitsPart
+  have := takeWhile_append_stop (digitTest 8) [] tail (by simp) ht
+  simp only [nil_append] at this
+  simp [this]
+
+/-- what may follow a number in the text `operator<<` writes: nothing, or the slash of a rational -/
+def TailOk (tail : List Char) : Prop := tail = [] ∨ ∃ v, tail = '/' :: v
+
+theorem tailOk_digit (tail : List Char) (h : TailOk tail) (b : Nat) : ∀ c, tail.head? = some c → digitTest b c = false := by
+  intro c hc
+  rcases h with rfl | ⟨v, rfl⟩
+  · simp at hc
+  · simp only [head?_cons, Option.some.injEq] at hc
+    subst hc
+    exact digitTest_of_not_xdigit b _ (by decide)
+
+theorem digitsVal_zero_cons (b : Nat) (ds : List Char) : digitsVal b ('0' :: ds) = digitsVal b ds := by
+  simp [digitsVal, show Scanf.digitValue '0' = 0 by decide]
+
+theorem hexOnly_outBase (f : Fmt) (h : f.hexOnly = true) : f.outBase = 16 ∧ f.octOnly = false := by
+  rcases f with ⟨dec, oct, hex, sb, sp, up, l, r, it, fx, sc, spt, sk⟩
+  cases dec <;> cases oct <;> cases hex <;> simp_all [Fmt.outBase, Fmt.hexOnly, Fmt.octOnly]
+
+theorem octOnly_outBase (f : Fmt) (h : f.octOnly = true) : f.outBase = 8 ∧ f.hexOnly = false := by
+  rcases f with ⟨dec, oct, hex, sb, sp, up, l, r, it, fx, sc, spt, sk⟩
+  cases dec <;> cases oct <;> cases hex <;> simp_all [Fmt.outBase, Fmt.hexOnly, Fmt.octOnly]
+
+theorem outBase_ten (f : Fmt) (h : f.outBase = 10) : f.hexOnly = false ∧ f.octOnly = false := by
+  unfold Fmt.outBase at h
+  split_ifs at h <;> simp_all
+
+/-- the number part (prefix and digits) of what `fo` writes for the magnitude `n`, read under `fi`, with `k` sign
+    characters in front and `tail` behind -/
+theorem bodySpec_written (fo fi : Fmt) (hc : ReadsBack fo fi) (neg : Bool) (k n : Nat) (tail : List Char) (ht : TailOk tail) :
+    bodySpec fi neg k ((prefixStr fo (decide (n = 0)) ++ natDigits fo.outBase fo.outUpper n) ++ tail) =
+      ⟨k + (prefixStr fo (decide (n = 0)) ++ natDigits fo.outBase fo.outUpper n).length,
+       .value (if neg then -(n : Int) else n), false, false⟩ := by
+  have hb := outBase_cases fo
+  have hr := outBase_range fo
+  obtain ⟨hall, hval⟩ := natDigits_spec fo.outBase hb fo.outUpper n
+  have hdne := natDigits_ne_nil fo.outBase fo.outUpper n
+  have hhead := natDigits_head_zero_iff fo.outBase fo.outUpper hr.1 hr.2 n
+  have hzero : n = 0 → natDigits fo.outBase fo.outUpper n = ['0'] := by rintro rfl; exact natDigits_zero _ _
+  generalize hds : natDigits fo.outBase fo.outUpper n = ds at *
+  have h0 : digitTest fo.outBase '0' = true := by rcases hb with h | h | h <;> rw [h] <;> decide
+  rcases hc with ⟨hfi, hx⟩ | ⟨hfi, hcond⟩
+  · -- the base is named by basefield
+    have hpre : prefixStr fo (decide (n = 0)) = [] ∨ prefixStr fo (decide (n = 0)) = ['0'] := by
+      unfold prefixStr
+      by_cases hs : fo.showbase = true
+      · have hh : fo.hexOnly = false := by cases h : fo.hexOnly <;> simp_all
+        simp only [hs, if_true, hh, Bool.false_eq_true, if_false]
+        split_ifs <;> simp
+      · simp [hs]
+    simp only [bodySpec, hfi]
+    rcases hpre with hp | hp <;> rw [hp]
+    · rw [nil_append, digitsPart_tail _ _ _ _ ds tail hdne hall (tailOk_digit tail ht _), hval]
+    · have hall' : ∀ c ∈ ['0'] ++ ds, digitTest fo.outBase c = true := by
+        intro c hc
+        rcases mem_append.mp hc with h | h
+        · simp only [mem_singleton] at h; rw [h]; exact h0
+        · exact hall c h
+      rw [digitsPart_tail _ _ _ _ (['0'] ++ ds) tail (by simp) hall' (tailOk_digit tail ht _)]
+      rw [show ['0'] ++ ds = '0' :: ds from rfl, digitsVal_zero_cons, hval]
+  · -- the base is detected
+    have hzcase : ∀ (tl : List Char), TailOk tl → bodySpec fi neg k ('0' :: tl) = ⟨k + 1, .value 0, false, false⟩ := by
+      intro tl htl
+      simp only [bodySpec, hfi]
+      rcases htl with rfl | ⟨v, rfl⟩
+      · exact digitsPart_zero neg (k + 1) [] (by simp)
+      · exact digitsPart_zero neg (k + 1) ('/' :: v) (tailOk_digit _ (Or.inr ⟨v, rfl⟩) 8)
+    by_cases hn : n = 0
+    · -- "0" whatever the base: no prefix (octal shows none for 0; hex shows 0x)
+      have hds0 := hzero hn
+      by_cases hh : fo.hexOnly = true ∧ fo.showbase = true
+      · have hp : prefixStr fo (decide (n = 0)) = ['0', 'x'] ∨ prefixStr fo (decide (n = 0)) = ['0', 'X'] := by
+          unfold prefixStr; simp only [hh.2, hh.1, if_true]; split_ifs <;> simp
+        have h16 := (hexOnly_outBase fo hh.1).1
+        rw [h16] at hall hval
+        rcases hp with hp | hp <;> rw [hp] <;> simp only [bodySpec, hfi, cons_append, nil_append]
+        · rw [digitsPart_tail 16 _ _ _ ds tail hdne hall (tailOk_digit tail ht _), hval]; simp [hn]; omega
+        · rw [digitsPart_tail 16 _ _ _ ds tail hdne hall (tailOk_digit tail ht _), hval]; simp [hn]; omega
+      · have hp : prefixStr fo (decide (n = 0)) = [] := by
+          unfold prefixStr
+          by_cases hs : fo.showbase = true
+          · have : fo.hexOnly = false := by cases h : fo.hexOnly <;> simp_all
+            simp [hs, this, hn]
+          · simp [hs]
+        rw [hp, hds0, nil_append, show ['0'] ++ tail = '0' :: tail from rfl, hzcase tail ht]
+        simp [hn]
+    · have hne0 : ds.head? ≠ some '0' := fun h => hn (hhead.mp h)
+      rcases hcond with h10 | hsb
+      · -- decimal text
+        have hp : prefixStr fo (decide (n = 0)) = [] := by
+          unfold prefixStr
+          simp [(outBase_ten fo h10).1, (outBase_ten fo h10).2]
+        rw [hp, nil_append]
+        rw [h10] at hall hval
+        cases hd : ds with
+        | nil => exact absurd hd hdne
+        | cons a t =>
+          rw [hd] at hne0 hall hval hdne
+          have ha0 : a ≠ '0' := by simpa using hne0
+          have : bodySpec fi neg k (a :: t ++ tail) = digitsPart 10 neg k false (a :: t ++ tail) := by
+            simp only [bodySpec, hfi, cons_append]
+            split <;> simp_all
+          rw [this, digitsPart_tail 10 _ _ _ (a :: t) tail hdne hall (tailOk_digit tail ht _), hval]
+      · by_cases hh : fo.hexOnly = true
+        · have hp : prefixStr fo (decide (n = 0)) = ['0', 'x'] ∨ prefixStr fo (decide (n = 0)) = ['0', 'X'] := by
+            unfold prefixStr; simp only [hsb, hh, if_true]; split_ifs <;> simp
+          have h16 := (hexOnly_outBase fo hh).1
+          rw [h16] at hall hval
+          rcases hp with hp | hp <;> rw [hp] <;> simp only [bodySpec, hfi, cons_append, nil_append]
+          · rw [digitsPart_tail 16 _ _ _ ds tail hdne hall (tailOk_digit tail ht _), hval]; simp; omega
+          · rw [digitsPart_tail 16 _ _ _ ds tail hdne hall (tailOk_digit tail ht _), hval]; simp; omega
+        · by_cases ho : fo.octOnly = true
+          · have hp : prefixStr fo (decide (n = 0)) = ['0'] := by
+              unfold prefixStr; simp [hsb, hh, ho, hn]
+            have h8 := (octOnly_outBase fo ho).1
+            rw [h8] at hall hval
+            rw [hp]
+            cases hd : ds with
+            | nil => exact absurd hd hdne
+            | cons a t =>
+              rw [hd] at hall hval hdne
+              have ha := (digitTest8_iff a).mp (hall a mem_cons_self)
+              have hax : a ≠ 'x' := by rw [Ne, char_eq_iff]; have : ('x' : Char).toNat = 120 := rfl; omega
+              have haX : a ≠ 'X' := by rw [Ne, char_eq_iff]; have : ('X' : Char).toNat = 88 := rfl; omega
+              have : bodySpec fi neg k (['0'] ++ a :: t ++ tail) = digitsPart 8 neg (k + 1) true (a :: t ++ tail) := by
+                simp only [bodySpec, hfi, cons_append, nil_append]
+                split <;> simp_all
+              rw [this, digitsPart_tail 8 _ _ _ (a :: t) tail hdne hall (tailOk_digit tail ht _), hval]
+              simp; omega
+          · -- neither hex nor octal: decimal
+            have h10 : fo.outBase = 10 := by
+              unfold Fmt.outBase; simp [hh, ho]
+            have hp : prefixStr fo (decide (n = 0)) = [] := by
+              unfold prefixStr
+              simp [hh, ho]
+            rw [hp, nil_append]
+            rw [h10] at hall hval
+            cases hd : ds with
+            | nil => exact absurd hd hdne
+            | cons a t =>
+              rw [hd] at hne0 hall hval hdne
+              have ha0 : a ≠ '0' := by simpa using hne0
+              have : bodySpec fi neg k (a :: t ++ tail) = digitsPart 10 neg k false (a :: t ++ tail) := by
+                simp only [bodySpec, hfi, cons_append]
+                split <;> simp_all
+              rw [this, digitsPart_tail 10 _ _ _ (a :: t) tail hdne hall (tailOk_digit tail ht _), hval]
+
+theorem written_ge_48 (fo : Fmt) (z : Bool) (n : Nat) : ∀ c ∈ prefixStr fo z ++ natDigits fo.outBase fo.outUpper n, 48 ≤ c.toNat := by
+  intro c hc
+  rcases mem_append.mp hc with h | h
+  · unfold prefixStr at h
+    split_ifs at h <;> simp at h
+    all_goals (rcases h with rfl | rfl) <;> decide
+  · exact digit_ge_48 _ (outBase_cases fo) c ((natDigits_spec fo.outBase (outBase_cases fo) fo.outUpper n).1 c h)
+
+/-- sign, prefix and digits as `fo` writes them, read under `fi`, with `tail` behind -/
+theorem numSpec_written (fo fi : Fmt) (hc : ReadsBack fo fi) (neg : Bool) (n : Nat) (sg tail : List Char)
+    (hsg : sg = [] ∧ neg = false ∨ sg = ['-'] ∧ neg = true ∨ sg = ['+'] ∧ neg = false) (ht : TailOk tail) :
+    numSpec fi ((sg ++ (prefixStr fo (decide (n = 0)) ++ natDigits fo.outBase fo.outUpper n)) ++ tail) =
+      ⟨(sg ++ (prefixStr fo (decide (n = 0)) ++ natDigits fo.outBase fo.outUpper n)).length,
+       .value (if neg then -(n : Int) else n), false, false⟩ := by
+  have hge := written_ge_48 fo (decide (n = 0)) n
+  have hne : prefixStr fo (decide (n = 0)) ++ natDigits fo.outBase fo.outUpper n ≠ [] := by
+    simp [natDigits_ne_nil]
+  rcases hsg with ⟨rfl, rfl⟩ | ⟨rfl, rfl⟩ | ⟨rfl, rfl⟩
+  · have key := bodySpec_written fo fi hc false 0 n tail ht
+    generalize prefixStr fo (decide (n = 0)) ++ natDigits fo.outBase fo.outUpper n = body at *
+    cases body with
+    | nil => exact absurd rfl hne
+    | cons a t =>
+      have ha := hge a mem_cons_self
+      have h1 : a ≠ '-' := by rw [Ne, char_eq_iff]; have : ('-' : Char).toNat = 45 := rfl; omega
+      have h2 : a ≠ '+' := by rw [Ne, char_eq_iff]; have : ('+' : Char).toNat = 43 := rfl; omega
+      have : numSpec fi ([] ++ a :: t ++ tail) = bodySpec fi false 0 (a :: t ++ tail) := by
+        unfold numSpec; split <;> simp_all
+      rw [this, key]
+      simp
+  · have key := bodySpec_written fo fi hc true 1 n tail ht
+    have : numSpec fi (['-'] ++ (prefixStr fo (decide (n = 0)) ++ natDigits fo.outBase fo.outUpper n) ++ tail) =
+        bodySpec fi true 1 ((prefixStr fo (decide (n = 0)) ++ natDigits fo.outBase fo.outUpper n) ++ tail) := rfl
+    rw [this, key]
+    simp; omega
+  · have key := bodySpec_written fo fi hc false 1 n tail ht
+    have : numSpec fi (['+'] ++ (prefixStr fo (decide (n = 0)) ++ natDigits fo.outBase fo.outUpper n) ++ tail) =
+        bodySpec fi false 1 ((prefixStr fo (decide (n = 0)) ++ natDigits fo.outBase fo.outUpper n) ++ tail) := rfl
+    rw [this, key]
+    simp; omega
+
+theorem signStr_cases (fo : Fmt) (z : Int) :
+    signStr fo (decide (z < 0)) = [] ∧ decide (z < 0) = false ∨ signStr fo (decide (z < 0)) = ['-'] ∧ decide (z < 0) = true ∨
+      signStr fo (decide (z < 0)) = ['+'] ∧ decide (z < 0) = false := by
+  unfold signStr
+  by_cases hz : z < 0
+  · simp [hz]
+  · by_cases hsp : fo.showpos = true <;> simp [hz, hsp]
+
+theorem fieldLayout_nopad (fo : Fmt) (w : Int) (fill : Char) (sg pre body : List Char) (hw : w ≤ 0) :
+    fieldLayout fo w fill sg pre body = sg ++ (pre ++ body) := by
+  have hpad : (w - ((sg.length + pre.length + body.length : Nat) : Int)).toNat = 0 := by omega
+  unfold fieldLayout
+  simp only [hpad, replicate_zero, append_nil, nil_append]
+  split_ifs <;> simp
+
+theorem wsPrefix_nil (fi : Fmt) (T : List Char) (h : ∀ c, T.head? = some c → isspace c = false) : wsPrefix fi T = [] := by
+  unfold wsPrefix
+  split
+  · cases T with
+    | nil => rfl
+    | cons a t => simp [h a rfl]
+  · rfl
+
+theorem not_space_of_ge (c : Char) (h : 43 ≤ c.toNat) : isspace c = false := by
+  cases hs : isspace c
+  · rfl
+  · have := (isspace_iff c).mp hs; omega
+
+/-- the text `o << z` / the numerator part of `o << q` starts with no white space -/
+theorem written_head (fo : Fmt) (z : Int) (tail : List Char) :
+    ∀ c, ((signStr fo (decide (z < 0)) ++ (prefixStr fo (decide (z.natAbs = 0)) ++ natDigits fo.outBase fo.outUpper z.natAbs)) ++ tail).head? = some c →
+      isspace c = false := by
+  intro c hc
+  have hge := written_ge_48 fo (decide (z.natAbs = 0)) z.natAbs
+  have hne : prefixStr fo (decide (z.natAbs = 0)) ++ natDigits fo.outBase fo.outUpper z.natAbs ≠ [] := by
+    simp [natDigits_ne_nil]
+  generalize prefixStr fo (decide (z.natAbs = 0)) ++ natDigits fo.outBase fo.outUpper z.natAbs = body at *
+  cases body with
+  | nil => exact absurd rfl hne
+  | cons a t =>
+    have ha := hge a mem_cons_self
+    rcases signStr_cases fo z with ⟨h, _⟩ | ⟨h, _⟩ | ⟨h, _⟩ <;> rw [h] at hc <;> simp at hc <;> subst hc
+    · exact not_space_of_ge _ (by omega)
+    · exact not_space_of_ge _ (by decide)
+    · exact not_space_of_ge _ (by decide)
+
+theorem natAbs_val (z : Int) : (if decide (z < 0) = true then -((z.natAbs : Nat) : Int) else ((z.natAbs : Nat) : Int)) = z := by
+  by_cases hz : z < 0
+  · rw [if_pos (by simpa using hz)]; omega
+  · rw [if_neg (by simpa using hz)]; omega
+
+theorem decide_natAbs (z : Int) : decide (z = 0) = decide (z.natAbs = 0) := by
+  by_cases h : z = 0 <;> simp [h]
+
+end
+
 end Mpir.CxxIo
